@@ -59,6 +59,36 @@ FAMILIES = {
     'wide-and-deep': (lambda n: t_nest(n // 4, leaf=('list', [('int', i) for i in range(n)])), [16, 32, 64, 128]),
     'commented-dict-values-at-every-level': (lambda n: t_cdict(n), [4, 6, 8, 10]),
 }
+
+
+def t_chain(n, kind, wrap, arity):
+    """n nested containers of one kind; the element holding the next level carries the wrapper(s)"""
+    t = ('int', 0)
+    for _ in range(n):
+        x = t
+        if wrap in ('trailing', 'both') and t[0] in ('list', 'tuple', 'dict'):
+            x = ('trailing', x, 'tail words')
+        if wrap in ('commented', 'both'):
+            x = ('commented', x, 'note of several words')
+        els = [x] + ([('int', 1)] if arity == 2 else [])
+        if kind == 'dictval':
+            t = ('dict', [(('str', 'a'), x)] + ([(('str', 'b'), ('int', 1))] if arity == 2 else []))
+        elif kind == 'call':
+            t = ('call', 'make', els, [])
+        elif kind == 'callkw':
+            t = ('call', 'make', [], [('kw', x)] + ([('other', ('int', 1))] if arity == 2 else []))
+        else:
+            t = (kind, els)
+    return t
+
+
+for _kind in ('list', 'tuple', 'dictval', 'call', 'callkw'):
+    for _wrap in ('commented', 'trailing', 'both'):
+        for _ar in (1, 2):
+            if _kind == 'dictval' and _wrap != 'trailing':
+                continue        # the open finding: see commented-dict-values-at-every-level
+            FAMILIES['chain-%s-%s-%d' % (_kind, _wrap, _ar)] = (
+                lambda n, k=_kind, w=_wrap, a=_ar: t_chain(n, k, w, a), [5, 10, 20, 40])
 CFGS = [dict(), dict(width=20), dict(width=200, ribbon_width=200)]
 
 
@@ -178,7 +208,9 @@ def main(tier):
         run.coverage['rule'] = (
             '%d input families (nested lists / tuples / dicts / calls, flat list / dict / set, long prose / unbroken / '
             'bytes strings, a string nested until no width is left, lists of strings, comments on list elements / dict '
-            'keys / dict values at every level, wide-and-deep) at parameters n, 2n, 4n, 8n (thorough: 16n) x 3 '
+            'keys / dict values at every level, wide-and-deep; chains of n containers of one kind - list, tuple, dict value, '
+            'call argument, call keyword - with 1 or 2 elements whose nested element carries comment(), trailing_comment() '
+            'or both) at parameters n, 2n, 4n, 8n (thorough: 16n) x 3 '
             'configurations. Measured: sys.monitoring LINE events inside the package during one pformat call. Oracle: '
             'every run ends within %d steps; doubling n multiplies the steps by at most %.0f. The hit counts of the '
             'three triplestack.pop() statements (main loop, both look-aheads) are compared for EQUALITY with the '
